@@ -681,7 +681,19 @@ class Interp(object):
         return list(zip(*[self.iterate(a) for a in args]))
 
     def nat_sorted(self, args, kwargs):
-        return sorted(self.iterate(args[0]))
+        items = self.iterate(args[0])
+        key = kwargs.get('key')
+        keyed = [(self.call(key, [x], {}) if key is not None else x, x) for x in items]
+        out = []
+        for k, x in keyed:          # stable insertion sort through the interpreter's own comparison
+            i = len(out)
+            while i > 0 and self._lt(k, out[i - 1][0]):
+                i -= 1
+            out.insert(i, (k, x))
+        res = [x for _, x in out]
+        if kwargs.get('reverse'):
+            res.reverse()
+        return res
 
     def nat_any(self, args, kwargs):
         return any(self.truth(x, None) for x in self.iterate(args[0]))
